@@ -24,7 +24,7 @@ spec fn stack_effect<'i>(pre: ReaderState, post: ReaderState, r: core::result::R
         Ok(Event::Start(e)) => e.name_len <= e.buf@.len() && post.stack() == pre.stack().push(e.buf@.subrange(0, e.name_len as int)),
         Ok(Event::End(e)) => if pre.stack().len() > 0 {
                 post.stack() == pre.stack().drop_last() && (pre.config.check_end_names ==> e.name@ == pre.stack().last())
-            } else { post.stack() == pre.stack() },
+            } else { pre.config.allow_unmatched_ends && post.stack() == pre.stack() },
         Ok(_) => post.stack() == pre.stack(),
         Err(_) => true,
     }
